@@ -1,4 +1,6 @@
 """NOF tie: real NumberOrderedForm arithmetic (optionally the patched scratch copy) vs Lean model vs Fock oracle."""
+import os, sys; sys.path.insert(0, os.path.dirname(os.path.abspath(__file__)))
+from common import case_rnd, skip
 import sys, json, random, subprocess, itertools, warnings
 from fractions import Fraction
 warnings.simplefilter("ignore")
@@ -116,13 +118,15 @@ def main(seed, ncases, driver, out):
     enum = list(enum_cases())
     def case_stream():
         for spec, e in enum: yield spec, e, "enumerated"
-        for _ in range(ncases):
+        for _k in range(ncases):
+            rnd = case_rnd(seed, len(enum) + _k)
             spec = rnd.choice([[('b', 'a')], [('f', 'c'), ('f', 'd')], [('f', 'c'), ('f', 'd'), ('f', 'e')], [('b', 'a'), ('f', 'c')],
                                [('l', 'a')], [('s', 's'), ('f', 'c')], [('b', 'a'), ('b', 'b')], [('s', 's'), ('s', 't')],
                                [('l', 'p'), ('b', 'a'), ('f', 'c'), ('f', 'd')], [('b', 'a'), ('s', 's')]])
             spec = sorted(spec, key=lambda m: (ORDER[m[0]], m[1]))
             yield spec, (gen_word_pair(rnd, len(spec)) if rnd.random() < 0.5 else gen_expr(rnd, len(spec), 3)), "random"
     for c, (spec, e, stratum) in enumerate(case_stream()):
+        if skip(c): continue
         ops = [KIND[k](n) for k, n in spec]
         ph = [_number_operator_to_placeholder(NumberOperator(o)) for o in ops]
         ranges = [range(0, 4) if m[0] == 'b' else (range(-2, 3) if m[0] == 'l' else range(0, 2)) for m in spec]
